@@ -218,6 +218,7 @@ func unionKeys[V any](a, b map[string]V) map[string]bool {
 
 func TestC12(t *testing.T) {
 	runWitnesses(t, "C12")
+	cliCases(t, "C12", "merge")
 	ids := []string{"a", "b", "c", "d"}
 	genIDs := func(rt *rapid.T, label string) []string {
 		var out []string
